@@ -100,7 +100,10 @@ SiteValues(b, s) ==
       rem == Len(b) - s.off IN
   IF s.w = 1 THEN 0..255
   ELSE { v \in {0, 1, 2, 3, 4, 5, 7, 8, 9, 11, 12, 13, 15, 16, 17, 27, 28, 29, 39, 40, 41, 255, 256, 257, 32767, 32768,
-               cur - 1, cur, cur + 1, rem - 1, rem, rem + 1, rem - 4, rem + 4} \cup (65524..65535) : v >= 0 /\ v <= 65535 }
+               cur - 1, cur, cur + 1, rem - 1, rem, rem + 1, rem - 4, rem + 4} \cup (65524..65535)
+               \* a length counted in BITS: every value from a little below the value's real size to beyond the end of the attribute's last word
+               \* (lengths that are no multiple of 8, lengths that fill the attribute exactly, one octet / one word too many)
+               \cup (IF s.nm = "aka.bitlen" THEN (cur - 17)..(cur + 41) ELSE {}) : v >= 0 /\ v <= 65535 }
 
 CursorVector(b, nm) ==
   Vector("cursor", <<
